@@ -41,8 +41,9 @@ func universe() []common.Address {
 }
 
 type Gen struct {
-	r *hx.Rng
-	w *World
+	r      *hx.Rng
+	w      *World
+	search bool // searcher mode: no model to agree with, order-dependent inputs are allowed
 }
 
 func rpg(n int64) *big.Int { return new(big.Int).Mul(big.NewInt(n), oneRPG) }
@@ -370,7 +371,7 @@ func (g *Gen) setup(withContracts bool) {
 	// lower ids; K0..K2 may call higher-indexed contracts and create anything.
 	install := func(i int, maxInit int) {
 		sc := g.script(i, contracts[i], maxInit, false)
-		if i == 2 && g.r.Chance(2, 3) {
+		if i == 2 && g.r.Chance(2, 3) && w.flags.P014 && w.flags.P012 {
 			// the staker: a contract that may become the account of a miner and uses the stake opcodes
 			ops := g.stakeOps()
 			pos := 0
@@ -385,7 +386,7 @@ func (g *Gen) setup(withContracts bool) {
 		if i >= 3 && g.r.Chance(1, 2) {
 			sc = g.bomb(i, contracts[i])
 		}
-		for w.scriptCost(sc, 0) > maxScriptCost {
+		for w.scriptCost(sc, 0) > w.maxCost() {
 			sc = sc[:len(sc)-1]
 		}
 		w.Code(contracts[i], sc)
@@ -395,7 +396,7 @@ func (g *Gen) setup(withContracts bool) {
 	for id := 0; id < nInit; id++ {
 		// creation code runs as a fresh address whose balance is the endowment
 		sc := g.script(2, outsiders[0], id, true)
-		for w.scriptCost(sc, 0) > maxScriptCost {
+		for w.scriptCost(sc, 0) > w.maxCost() {
 			sc = sc[:len(sc)-1]
 		}
 		w.Init(id, sc)
@@ -406,7 +407,7 @@ func (g *Gen) setup(withContracts bool) {
 	// K0 is never a callee of other code; it alone may use AUTH/AUTHCALL (the authority's nonce is
 	// baked into its code before every block, so it runs at most once per block)
 	sc := g.script(0, contracts[0], nInit, false)
-	if g.r.Bool() {
+	if g.r.Bool() && w.flags.P014 {
 		var to common.Address
 		switch g.r.Intn(3) {
 		case 0:
@@ -426,20 +427,20 @@ func (g *Gen) setup(withContracts bool) {
 		}
 		sc = append(sc[:pos], append(Script{ac}, sc[pos:]...)...)
 	}
-	for w.scriptCost(sc, 0) > maxScriptCost {
+	for w.scriptCost(sc, 0) > w.maxCost() {
 		sc = sc[:len(sc)-1]
 	}
 	w.Code(contracts[0], sc)
 }
 
-func (g *Gen) gasLimitStr(codeless bool) string {
+func (g *Gen) gasLimitStr(codeless bool, intrinsic uint64) string {
 	switch g.r.Intn(24) {
 	case 0:
 		return "1000" // below intrinsic gas
 	case 1:
 		return []string{"abc", "-1", "+5", "1e6", "18446744073709551616", "18446744073709551615", " 5", "0x10", "1_0"}[g.r.Intn(9)]
 	case 2:
-		return "629999"
+		return fmt.Sprintf("%d", intrinsic-1)
 	case 3:
 		return "900000000"
 	case 4:
@@ -456,8 +457,12 @@ func (g *Gen) gasLimitStr(codeless bool) string {
 		case 2:
 			return "30000000"
 		case 3:
-			return "630000" // exactly the intrinsic gas of an empty call
+			return fmt.Sprintf("%d", intrinsic) // exactly the intrinsic gas
 		}
+	}
+	if !g.w.flags.P026 {
+		// before the magnification a few million gas are plenty; the pre-check wants gasLimit * price
+		return fmt.Sprintf("%d", 20000000+g.r.Intn(10000000))
 	}
 	return fmt.Sprintf("%d", 500000000+g.r.Intn(400000000))
 }
@@ -587,6 +592,10 @@ func (g *Gen) minerTx() {
 		src := g.richEOA()
 		w.QueueAdd(src, known(), uint64(g.r.Pick(0, 1, 5, 100, 1000, int(g.stakeAmount(src)%100000))))
 	case 13, 14, 15:
+		if !w.flags.P012 {
+			g.operatorTx()
+			return
+		}
 		for _, q := range w.queue {
 			if q.feat["refund"] {
 				g.operatorTx() // one refund transaction per block (the context list quirk is C20's subject)
@@ -699,7 +708,30 @@ func (g *Gen) operatorTx() {
 		ts = append(ts, Target{Key: key, Amount: amt})
 	}
 	ts = orderSafe(w, src, ts)
+	if !w.flags.P002 && !g.search && len(ts) > 1 && !allAffordable(w, src, ts) {
+		// before Proposal002 a failed multi-target transfer keeps the transfers made before the failing one,
+		// i.e. the outcome depends on Go's map order (C01); the correspondence stream keeps to one target then
+		ts = ts[:1]
+	}
 	w.QueueOperator(src, ts, false)
+}
+
+// allAffordable: every amount parses, is non-negative, and the sum fits the balance whatever the queue does
+// (conservative: only when nothing else is queued for this block).
+func allAffordable(w *World, src common.Address, ts []Target) bool {
+	if len(w.queue) != 0 {
+		return false
+	}
+	sum := new(big.Int)
+	for _, t := range ts {
+		v, err := utility.StrToBigInt(t.Amount)
+		if err != nil || v.Sign() < 0 {
+			return false
+		}
+		sum.Add(sum, v)
+	}
+	bal := new(big.Int).Sub(w.adb.GetBalance(src), big.NewInt(1000000000000000))
+	return sum.Cmp(bal) <= 0
 }
 
 // orderSafe drops self-targets whose outcome would depend on Go's map iteration order
@@ -848,6 +880,9 @@ func (g *Gen) contractTx(first bool) {
 				w.Set(c.Src, need)
 				c.Value = "0"
 				c.GasLimit = fmt.Sprintf("%d", 500000000+g.r.Intn(400000000))
+				if !w.flags.P026 {
+					c.GasLimit = fmt.Sprintf("%d", 20000000+g.r.Intn(10000000))
+				}
 				w.QueueContract(c)
 				return
 			}
@@ -856,6 +891,12 @@ func (g *Gen) contractTx(first bool) {
 	if c.Target != nil && g.r.Bool() && !codeless {
 		c.Input = g.r.Bytes(g.r.Intn(40))
 	}
-	c.GasLimit = g.gasLimitStr(codeless)
+	{
+		input := c.Input
+		if c.Target == nil {
+			input = assemble(w.inits[c.InitId], w.inits, nil, w.budget)
+		}
+		c.GasLimit = g.gasLimitStr(codeless, w.intrinsic(input, c.Target == nil))
+	}
 	w.QueueContract(c)
 }
